@@ -16,17 +16,32 @@ use crate::sink::Outcome;
 const BIG: usize = 64 << 20;
 
 /// Payload total (bytes of stored samples) to aim at, relative to 2^32.
-const TARGETS: [i64; 8] = [-4096, -64, -40, -33, -16, -9, -8, 100];
+const TARGETS: [i64; 8] = [-4096, -64, -33, -16, -9, -8, -1, 100];
 
 pub fn gen(rng: &mut Rng, i: u64) -> ProgCase {
     let target = (1i64 << 32) + TARGETS[(i as usize) % TARGETS.len()];
-    // runs 0..8: standard layout (every sample its own chunk when audio is configured), 8..16: fast start
-    let with_audio = !rng.chance(1, 4);
-    let fast = i >= 8;
+    // runs 0..8: standard layout, audio (every sample its own chunk), tiny samples last (largest chunk offsets);
+    // 8..16: the same with fast start; 16..24: the LAST sample is the large one (so that the chunk offsets all
+    // fit and the mdat size field is the first thing to overflow), audio and layout drawn; 24..32: video only
+    // (one chunk), large last sample
+    let mode = (i / 8) % 4;
+    let with_audio = match mode {
+        0 | 1 => !rng.chance(1, 4),
+        2 => true,
+        _ => false,
+    };
+    let fast = match mode {
+        0 => false,
+        1 => true,
+        _ => rng.bool(),
+    };
+    let big_last = mode >= 2;
     let codec = if rng.bool() { VCodec::Vp9 } else { VCodec::Av1 }; // stored unchanged: sizes are exact
     let cfg = ProgCfg {
         video: Some(VideoCfg { codec, width: 1920, height: 1080, fps: F(30.0), alias: false }),
         audio: if with_audio { Some(AudioCfg { codec: ACodec::Opus, rate: 48000, channels: 2, alias: false }) } else { None },
+        video_prior: None,
+        audio_prior: None,
         fast_start: Some(fast),
         meta: None,
         sink: SinkKind::Sim,
@@ -38,8 +53,8 @@ pub fn gen(rng: &mut Rng, i: u64) -> ProgCase {
     ops.push(Op::Video { pts: F(0.0), data: Hex(first.data), key: true, cc: true });
     let mut n = 1u64;
     // a few audio packets early and some tiny video frames at the very end (their offsets are the largest)
-    let tail_video = 3;
-    let tail_sizes: i64 = 3 * 16;
+    let tail_video = if big_last { 0 } else { 3 };
+    let tail_sizes: i64 = tail_video * 16;
     let audio_sizes: i64 = if with_audio { 4 * 20 } else { 0 };
     let mut remaining = target - total - tail_sizes - audio_sizes;
     let mk_big = |size: usize, stamp: u64| -> Vec<u8> {
@@ -53,7 +68,7 @@ pub fn gen(rng: &mut Rng, i: u64) -> ProgCase {
         d
     };
     while remaining > 0 {
-        let size = if remaining > BIG as i64 + 64 { BIG } else { remaining as usize };
+        let size = if remaining > BIG as i64 + (1 << 20) { BIG } else { remaining as usize };
         let d = mk_big(size, n);
         remaining -= d.len() as i64;
         ops.push(Op::Video { pts: F(n as f64 / 30.0), data: Hex(d), key: false, cc: false });
